@@ -212,6 +212,11 @@ def check_spec(ctx, spec, cls=None):
             'label': lambda c, v: c.__setitem__(('X', lab), v),
             'label-slice': lambda c, v: c.__setitem__(('X', slice(lab, lab)), v),
             'replace_values': lambda c, v: c.replace_values(X=[v if j == i else c.X[j] for j in range(n)]),
+            # whole series given as a NumPy array of exactly the stored dtype, which the caller overwrites afterwards: what was
+            # written stays written (the returned callable is run after the write and before the read-backs)
+            'whole-series-attribute-ndarray': lambda c, v: _write_array(c, 'attr', v, i, n),
+            'whole-series-key-ndarray': lambda c, v: _write_array(c, 'key', v, i, n),
+            'replace_values-ndarray': lambda c, v: _write_array(c, 'replace', v, i, n),
         }
         readers = {
             'attribute': lambda c: c.X[i],
@@ -228,10 +233,12 @@ def check_spec(ctx, spec, cls=None):
             ctx.evaluation((kind, n, 'rt', wname, i), sample=case)
             before = state(c)
             try:
-                w(c, v)
+                after_write = w(c, v)
             except Exception as e:
                 ctx.violation('path-write', f'{kind}: writing through {wname} raised {type(e).__name__}: {e}', case)
                 continue
+            if callable(after_write):
+                after_write()
             ch = changed(before, state(c))
             if ch != {('X', i)}:
                 ctx.violation('path-write', f'{kind}: writing position {i} through {wname} changed {sorted(ch)}', case)
@@ -245,6 +252,20 @@ def check_spec(ctx, spec, cls=None):
                     continue
                 if got != v:
                     ctx.violation('path-read', f'{kind}: wrote {v} at position {i} through {wname}, read {got!r} through {rname}', case)
+
+
+def _write_array(c, how, v, i, n):
+    arr = np.array([v if j == i else c.X[j] for j in range(n)], dtype=c.X.dtype)
+    if how == 'attr':
+        c.X = arr
+    elif how == 'key':
+        c['X'] = arr
+    else:
+        c.replace_values(X=arr)
+
+    def poison():
+        arr[...] = -999.0
+    return poison
 
 
 def all_specs(ctx):
